@@ -164,21 +164,18 @@ theorem processSeqreset_hold (m : Msg) (c : Conn) (hI : OutInv c) :
     Hold sr U X c (processSeqreset m) (fun _ c' => c'.state = c.state) := by
   unfold processSeqreset
   dsimp only
-  have fin : ∀ n, Hold sr U X c (do
+  have fin : ∀ n nw, Hold sr U X c (do
       setSeqNum none (some n)
-      let w ← M.liftE (m.get tNewSeqNo)
-      let nw ← M.int w
       setSeqNum none (some nw)
       pure true) (fun _ c' => c'.state = c.state) := by
-    intro n
+    intro n nw
     refine Hold.seq (setSeqNum_in_hold _ c hI) ?_
     intro _ c1 hI1 h1
-    hstep; hstep
     refine Hold.seq (setSeqNum_in_hold _ c1 hI1) ?_
     intro _ c2 hI2 h2
     exact Hold.pure hI2 (by rw [h2.1, h1.1])
   repeat' hstep
-  all_goals exact fin _
+  all_goals exact fin _ _
 
 /-- `FIXSession.set_next_num_in`: inbound counter only -/
 theorem setNextNumIn_hold (m : Msg) (c : Conn) (hI : OutInv c) :
